@@ -195,13 +195,17 @@ Fixpoint parse_file (fuel : nat) (ts : list tok) : option (list sitem) :=
 Definition terms_of (its : list sitem) : list sterm := flat_map (fun i => match i with ITerm t => [t] | _ => [] end) its.
 Definition rules_of (its : list sitem) : list srule := flat_map (fun i => match i with IRule r => [r] | _ => [] end) its.
 
-(* keep the first occurrence of every name; a later occurrence with another explicit code is an error *)
+(* keep the first occurrence of every name; a later occurrence with another explicit code is an error;
+   a later occurrence with an explicit code gives its code to an entry kept without one *)
+Definition set_code (nm : list byte) (c : Z) (seen : list sterm) : list sterm :=
+  map (fun p => if bytes_eqb (fst p) nm then (fst p, c) else p) seen.
 Fixpoint dedupe_terms (seen : list sterm) (ts : list sterm) : option (list sterm) :=
   match ts with
   | [] => Some seen
   | (nm, c) :: r =>
       match find (fun p => bytes_eqb (fst p) nm) seen with
       | Some (_, c0) => if (negb (Z.eqb c (-1)) && negb (Z.eqb c0 (-1)) && negb (Z.eqb c c0))%bool then None
+                        else if Z.eqb c0 (-1) then dedupe_terms (set_code nm c seen) r
                         else dedupe_terms seen r
       | None => dedupe_terms (seen ++ [(nm, c)]) r
       end
